@@ -367,11 +367,26 @@ def proto_table(platform: str) -> dict:
     return lib_protocol.PROTOCOL_TO_NR[platform]
 
 
+_PORT_TABLES: dict = {}
+
+
 def port_table(platform: str, version: str, proto: int) -> dict:
+    """The library's name table (trusted data), as it was when first asked for: the harness keeps
+    its own copy, so that whatever a run does to dicts handed out by the library afterwards cannot
+    change what the independent reader accepts."""
     if proto not in (6, 17):
         return {}
-    return PortName(protocol="tcp" if proto == 6 else "udp", platform=platform,
-                    version=version or "0").names()
+    key = (platform, version or "0", proto)
+    if key not in _PORT_TABLES:
+        _PORT_TABLES[key] = dict(PortName(protocol="tcp" if proto == 6 else "udp",
+                                          platform=platform, version=version or "0").names())
+    return dict(_PORT_TABLES[key])
+
+
+for _pl in ("ios", "nxos", "asa"):
+    for _ve in ("0", "15.2", "16.9", "9.3", "17.3"):
+        for _pr in (6, 17):
+            port_table(_pl, _ve, _pr)
 
 
 class Reader:
